@@ -394,6 +394,28 @@ func pItems(tier string) []proto.Item {
 			}
 		}
 	}
+	// a destination slower than the send delay (its answers take 45 ms, probes leave every 10 ms): four more probes reach
+	// it before its first answer is back, every one of them is answered, and the list still ends at the LOWEST of them
+	for _, v := range proto.Variants {
+		if !proto.Info(v).Parallel {
+			continue
+		}
+		s := proto.Scn{Variant: v, First: 1, Last: 9, Dest: 3, IPIDBase: 300, EchoBase: 31, TimeoutMs: 300, DelayMs: 10}
+		s.Hops = map[int]proto.HopSpec{}
+		for t := 3; t <= 9; t++ {
+			s.Hops[t] = proto.HopSpec{DelayUs: 45000}
+		}
+		items = append(items, proto.Item{Scn: s, Class: fmt.Sprintf("%s/destination-slower-than-the-send-delay", v), Note: map[string]string{"want_len": "3"}})
+	}
+	// TCP SYN: the probe's sequence number is 2^32-1, so the destination acknowledges 0 (default mode: one number for the
+	// whole run; Paris mode: every probe draws it): the list ends at the destination all the same
+	for _, v := range []string{"syn", "synr", "synparis"} {
+		for _, form := range []string{"synack", "rstack"} {
+			s := proto.Scn{Variant: v, First: 1, Last: 5, Dest: 3, IPIDBase: 300, EchoBase: 31, TimeoutMs: 300, DelayMs: 10, Rand: []uint32{0xffffffff, 0xffffffff, 0xffffffff, 0xffffffff, 0xffffffff, 0xffffffff, 0xffffffff, 0xffffffff}}
+			s.Hops = map[int]proto.HopSpec{3: {Form: form}, 4: {Form: form}, 5: {Form: form}}
+			items = append(items, proto.Item{Scn: s, Class: fmt.Sprintf("%s/sequence-number-all-ones/%s", v, form), Note: map[string]string{"want_len": "3"}})
+		}
+	}
 	// SACK: the acknowledgement of the first probe that reached the destination is lost, the next probe is lost on its way,
 	// so the later acknowledgements carry two blocks with the lowest one LAST ([7,8) [5,6)): the list still ends at the
 	// lowest TTL the destination acknowledged
